@@ -6,6 +6,7 @@ import (
 	"math/rand/v2"
 	"runtime"
 	"sync"
+	"sync/atomic"
 	"time"
 
 	"github.com/anishathalye/porcupine"
@@ -338,6 +339,68 @@ func storm(idx int64, r *rand.Rand) {
 	rt.Count("storm_cases", 1)
 	rt.Distinct(fmt.Sprintf("storm|%v|%d", desc, seeds[0]))
 	addVsRemove(idx, lr)
+	acquireVsRemove(idx, lr)
+}
+
+var spinSink atomic.Int64
+
+func spinFor(n int) {
+	for i := 0; i < n; i++ {
+		spinSink.Add(1)
+	}
+}
+
+// acquireVsRemove: on a lookup strategy, TryAcquire(k) racing with RemovePartition(k) while the total is at the limit, the
+// unknown bin holds its share and k holds nothing.  The request is decided either before the removal (admitted on k's
+// guaranteed share; the removal reports 1 busy) or after it (k's requests now belong to the full unknown bin: refused;
+// the removal reports 0).  Any other pair of results has no sequential explanation.
+func acquireVsRemove(idx int64, lr *rand.Rand) {
+	mk := func(name string) *strategy.LookupPartition {
+		return strategy.NewLookupPartitionWithMetricRegistry(name, 0.25, 1, core.EmptyMetricRegistryInstance)
+	}
+	st, err := strategy.NewLookupPartitionStrategyWithMetricRegistry(map[string]*strategy.LookupPartition{"j": mk("j"), "k": mk("k")}, nil, 2, core.EmptyMetricRegistryInstance)
+	if err != nil {
+		panic(err)
+	}
+	ck := ctxKey("k")
+	for round := 0; round < 400; round++ {
+		tu, oku := st.TryAcquire(ctxKey("zz"))
+		tj, okj := st.TryAcquire(ctxKey("j"))
+		if !oku || !okj {
+			panic("c03 acquireVsRemove: set-up refused")
+		}
+		bar := lin.NewBarrier(2)
+		var wg sync.WaitGroup
+		wg.Add(2)
+		var tok core.StrategyToken
+		var ok, found bool
+		var busy int
+		spinA, spinR := lr.IntN(40), lr.IntN(40)
+		go func() { defer wg.Done(); bar.Wait(); spinFor(spinA); tok, ok = st.TryAcquire(ck) }()
+		go func() { defer wg.Done(); bar.Wait(); spinFor(spinR); busy, found = st.RemovePartition("k") }()
+		wg.Wait()
+		rt.Count("acquire_vs_remove_rounds", 1)
+		if ok {
+			rt.Count("acquire_vs_remove_rounds/request-first", 1)
+		} else {
+			rt.Count("acquire_vs_remove_rounds/removal-first", 1)
+		}
+		if !found || ok != (busy == 1) || busy > 1 {
+			rt.Violation("C03/lookup/request-racing-with-the-removal-of-its-partition-has-no-sequential-explanation", idx, rt.J{"round": round,
+				"request_admitted": ok, "RemovePartition_reported_busy": busy, "RemovePartition_found": found, "strategy": st.String()})
+			return
+		}
+		if tok != nil {
+			tok.Release()
+		}
+		tu.Release()
+		tj.Release()
+		if st.BusyCount() != 0 {
+			rt.Violation("C03/lookup/busy-not-zero-after-all-released/acquire-vs-remove", idx, rt.J{"round": round, "busy": st.BusyCount()})
+			return
+		}
+		st.AddPartition("k", mk("k"))
+	}
 }
 
 // addVsRemove: on a predicate strategy, AddPartition(x) racing with RemovePartitionsMatching(y).  After both returned,
